@@ -4,6 +4,7 @@ import (
 	"fmt"
 	"go/constant"
 	"go/token"
+	"go/types"
 	"strings"
 
 	"golang.org/x/tools/go/ssa"
@@ -738,6 +739,41 @@ func (cowHooks) OnSliceStore(c *engine.Ctx, instr ssa.Instruction, so engine.Sli
 	}
 }
 
+// EvalValue gives the output allocated by the routine an identity ("out")
+// and notes, per path, that it exists: allocating it a second time on the
+// same path discards what was already produced.
+func (cowHooks) EvalValue(c *engine.Ctx, v ssa.Value, ops []engine.AbsVal) (engine.AbsVal, bool) {
+	isBytes := func(t types.Type) bool {
+		sl, ok := t.Underlying().(*types.Slice)
+		if !ok {
+			return false
+		}
+		b, ok := sl.Elem().Underlying().(*types.Basic)
+		return ok && b.Kind() == types.Uint8
+	}
+	fresh := false
+	switch x := v.(type) {
+	case *ssa.MakeSlice:
+		fresh = isBytes(x.Type())
+	case *ssa.Slice:
+		if _, ok := x.X.(*ssa.Alloc); ok && isBytes(x.Type()) {
+			fresh = true // make with constant size
+		}
+	}
+	if !fresh {
+		return nil, false
+	}
+	o := c.Heap["out"]
+	if o == nil {
+		return nil, false
+	}
+	if live, _ := constStr(o.Fields["#live"]); live == "T" {
+		c.It.Record(engine.Event{Kind: "realloc", Instr: v.(ssa.Instruction), Fn: c.Fn, Detail: map[string]string{"what": "the output is allocated a second time on a path on which it already holds escaped text"}})
+	}
+	o.Fields["#live"] = str("T")
+	return engine.SliceOf{Obj: "out", Path: "res"}, true
+}
+
 func (cowHooks) OnCall(c *engine.Ctx, instr ssa.Instruction, callee *ssa.Function, args []engine.AbsVal) (bool, engine.AbsVal) {
 	pure := map[string]bool{"bytes.HasSuffix": true, "bytes.Equal": true, "unicode/utf8.DecodeLastRune": true}
 	// a helper of the module is interpreted like the routine itself (its
@@ -767,7 +803,8 @@ func ruleC10f(c *Ctx) []*report.Result {
 	var roots []engine.Root
 	for _, brk := range []bool{false, true} {
 		for _, strip := range []bool{false, true} {
-			roots = append(roots, engine.Root{Fn: fn, Args: []engine.AbsVal{engine.SliceOf{Obj: "input", Path: "b"}, engine.Top{}, boolv(brk), boolv(strip)}, Heap: engine.Heap{}})
+			h := engine.Heap{"out": &engine.Object{Type: types.Typ[types.Int], TrackAll: true, Fields: map[string]engine.AbsVal{"#live": str("F")}}}
+			roots = append(roots, engine.Root{Fn: fn, Args: []engine.AbsVal{engine.SliceOf{Obj: "input", Path: "b"}, engine.Top{}, boolv(brk), boolv(strip)}, Heap: h})
 		}
 	}
 	it.Run(roots)
@@ -784,6 +821,9 @@ func ruleC10f(c *Ctx) []*report.Result {
 	}
 	for _, e := range eventsOf(it, "cow") {
 		r.Fail("escape.InternalEscapeBytes / writes its input", c.P.Pos(e.Instr.Pos()), e.Detail["what"]+": the caller's buffer (possibly shared with a by-value copy or an earlier result) is modified in place", nil, "")
+	}
+	for _, e := range eventsOf(it, "realloc") {
+		r.Fail("escape.InternalEscapeBytes / output allocated once per path", c.P.Pos(e.Instr.Pos()), e.Detail["what"]+": everything escaped so far is dropped from the result", nil, "")
 	}
 	r.Analysed = fmt.Sprintf("%d abstract states", it.States)
 	return []*report.Result{r}
